@@ -28,7 +28,9 @@ For whoever builds C02 / C06 on top of this reader (all readers are `Codec.R α 
 * `fp.seek(q)` is "return position `q`": `LayerInfo.dec` and `LayerAndMask.dec` return `endPos` whatever the body
   consumed (`assert fp.tell() <= end_pos` → `.assertionError` in `LayerInfo.dec` only); `GlobalLayerMaskInfo.dec`
   returns its *start* position for a block shorter than 13 bytes (the rewind); `TaggedBlock.dec` returns `none` with the
-  cursor restored on a bad signature. A position may exceed `data.length` (BytesIO semantics: later reads see nothing).
+  cursor restored on a bad signature. A position may exceed `data.length` (BytesIO semantics: later reads see nothing),
+  but not `sys.maxsize`: a declared size or end position of `2^63` and more (8-byte fields of a PSB) is `.overflowError`
+  (`Codec.overflows`), as `fp.read` / `fp.seek` raise OverflowError.
 * `with io.BytesIO(block)` is a nested run `reader block 0` whose final position is dropped (`resourcesDec`, `maskDec`,
   `BlendingRanges.dec`, `LayerRecord.dec` → `extraDec`, `GlobalLayerMaskInfo.dec`).
 * the gates: `LayerAndMask.bodyDec` (`p + 4 ≤ endPos`: the section, not the stream, decides), `taggedCond endPos`
@@ -798,7 +800,8 @@ def LayerInfo.dec (version : Nat) : R LayerInfo := fun d p => do
     match LayerInfo.bodyDec version d p with
     | .ok (li, p) => .ok (li.normCount0, p)
     | .error e => .error e)
-  if p ≤ endPos then .ok (li, endPos) else .error .assertionError
+  if p ≤ endPos then (if overflows endPos d then .error .overflowError else .ok (li, endPos))   -- `fp.seek(end_pos)`
+  else .error .assertionError
 
 /-- per record: as many channel data as channel infos -/
 def shapesAgree : List LayerRecord → List (List ChannelData) → Prop
@@ -975,7 +978,7 @@ def LayerAndMask.dec (version : Nat) : R LayerAndMask := fun d p => do
   let (length, p) ← readU (secW version) d p
   let endPos := p + length
   let (x, _) ← (if length = 0 then .ok (⟨none, none, none⟩, p) else LayerAndMask.bodyDec version endPos d p)
-  .ok (x, endPos)
+  if overflows endPos d then .error .overflowError else .ok (x, endPos)                       -- `fp.seek(end_pos)`
 
 /-! ## ImageData -/
 
